@@ -61,9 +61,11 @@ def py_atoms(tier):
             if (v.count(".") <= 1 or v in wild3) and v.replace(".", "").isdigit():
                 out.append({"var": var, "op": "==", "val": v + ".*", "rev": False, "style": 0})
                 out.append({"var": var, "op": "!=", "val": v + ".*", "rev": False, "style": 0})
-    for v in M.PY_NONVERSION_LITS[: 1 if tier == "quick" else 2]:
+    for v in M.PY_NONVERSION_LITS[: 1 if tier == "quick" else 3]:
         for op in ("==", "!="):
             out.append({"var": "python_full_version", "op": op, "val": v, "rev": False, "style": 0})
+    for op in ("==", "!="):
+        out.append({"var": "python_version", "op": op, "val": "3.9+abc", "rev": False, "style": 0})
     for lst in lists:
         out.append({"var": "python_version", "op": "in", "val": lst, "rev": False, "style": 0})
         out.append({"var": "python_version", "op": "not in", "val": lst, "rev": False, "style": 0})
@@ -197,6 +199,19 @@ def table_cases(name, tier):
                     continue
                 yield {"a": ["and", ["and", P(p), P(q)], P(x1)], "b": ["and", ["and", P(p), P(q)], P(x2)], "names": names}
                 yield {"a": ["and", P(p), P(x1)], "b": ["and", P(q), P(x2)], "names": [p["var"], q["var"]]}
+    elif name == "factored-triples":
+        # ((P and X1) | (P and X2)) | (X1 and Y): | keeps the factored alternative P and (X1 or X2) next to X1 and Y;
+        # only() without Y's variable (three operations deep) re-normalises a conjunction that holds a nested union
+        W = _WIDE_ATOMS
+        k = 0
+        for p, x1, x2, y in itertools.permutations(range(len(W)), 4):
+            if len({W[i]["var"] for i in (p, x1, x2, y)}) < 4:
+                continue
+            k += 1
+            if tier == "quick" and k % 6:
+                continue
+            a = ["or", ["and", P(W[p]), P(W[x1])], ["and", P(W[p]), P(W[x2])]]
+            yield {"a": a, "b": ["and", P(W[x1]), P(W[y])], "names": sorted({W[p]["var"], W[x1]["var"], W[x2]["var"]})}
     elif name == "mixed-py-triples":
         # x or (x and y) or x  shapes and merged operands meeting a third atom
         A = [a for a in py_atoms("quick") if not a["rev"]][:: 4 if tier == "quick" else 2]
@@ -270,7 +285,7 @@ def tasks(tier, seed):
     shards = 48 if tier == "quick" else 192
     # slow, straggler-prone shards first
     t = [(MOD, "hyp", (n // shards, seed * 1_000_003 + i, tier)) for i in range(shards)]
-    for name, nsh in (("py-pairs", 32 if tier == "quick" else 64), ("rel-pairs", 4), ("str-triples", 32), ("extra-triples", 16), ("mixed-py-triples", 16), ("wide-with-neutral", 16), ("str-group-pairs", 8), ("consensus-py", 16), ("shared-child-unions", 16), ("factored-pairs", 4)):
+    for name, nsh in (("py-pairs", 32 if tier == "quick" else 64), ("rel-pairs", 4), ("str-triples", 32), ("extra-triples", 16), ("mixed-py-triples", 16), ("wide-with-neutral", 16), ("str-group-pairs", 8), ("consensus-py", 16), ("shared-child-unions", 16), ("factored-pairs", 4), ("factored-triples", 8)):
         for sh in range(nsh):
             t.append((MOD, "tables", (name, tier, sh, nsh)))
     return t
